@@ -433,25 +433,32 @@ def check_calendar(prog, rep):
 
 # ------------------------------------------------------------------------------------------------ R15.5 negation of the parsed magnitude
 def check_negation(prog, rep):
-    fs = [f for f in prog.funcs.values() if f.name == 'operator()' and f.body is not None and 'convert_chrono.h' in f.id
-          and [p['n'] for p in f.params] == ['pos', 'end', 'isDatePart', 'isNegative', 'duration']]
+    def shape(f):
+        ts = [f.type(p) if 't' in p else '' for p in f.params]
+        return len(ts) == 5 and ts[0].startswith('const char *') and ts[1].startswith('const char *') and ts[2] == 'bool' and ts[3] == 'bool' and 'duration' in ts[4]
+    fs = [f for f in prog.funcs.values() if f.name == 'operator()' and f.body is not None and 'convert_chrono.h' in f.id and shape(f)]
     if not fs:
         raise AnalysisBroken('anchor vanished: parseNextPart lambda of the ISO duration parser')
     n_ok = 0
     for f in sorted(fs, key=lambda g: g.id):
-        ifs = [n for n in f.walk() if n['k'] == 'IfStmt' and (strip(child(n, 'cond')) or {}).get('n') == 'isNegative']
-        vals = [n for n in f.walk() if n['k'] == 'DeclRefExpr' and n.get('n') == 'value']
-        if not ifs or not vals:
-            raise AnalysisBroken('R15.5: "if (isNegative)" block not found in %s' % f.loc())
+        pd = {p['d']: p for p in f.params}
+        ifs = [n for n in f.walk() if n['k'] == 'IfStmt' and (strip(child(n, 'cond')) or {}).get('d') in (f.params[2]['d'], f.params[3]['d'])
+               and any(x['k'] == 'UnaryOperator' and x.get('op') == '-' for x in f.walk(child(n, 'then')))]
+        if not ifs:
+            raise AnalysisBroken('R15.5: the "negative duration" block (if (<bool parameter>) { ... -magnitude ... }) was not found in %s' % f.loc())
+        negs = [x for x in f.walk(child(ifs[0], 'then')) if x['k'] == 'UnaryOperator' and x.get('op') == '-']
+        vals = [x for x in f.walk(negs[0]) if x['k'] == 'DeclRefExpr' and x.get('dk') in ('Var', None) and x.get('d') not in pd]
+        if not vals:
+            raise AnalysisBroken('R15.5: the negated magnitude is not a local variable in %s' % f.loc())
         rep.touch(f)
         vd = vals[0]['d']
-        neg_p = [p for p in f.params if p['n'] == 'isNegative'][0]
+        neg_p = pd[strip(child(ifs[0], 'cond'))['d']]
 
         def setup(it, fr, cell):
             fr.env[vd] = cell
             fr.env[neg_p['d']] = 1
             for p in f.params:
-                if p['n'] != 'isNegative':
+                if p is not neg_p:
                     fr.env[p['d']] = TOP
         cells = nowrap.explore(prog, f, 0, (1 << 64) - 1, setup, None, body=ifs[0], max_depth=0)
         bad = []
